@@ -426,6 +426,41 @@ pub fn run(args: &Args) {
             run_case(&mut out, &Case { ndev: 1 + round % 2, history, probe }, "single");
         }
     }
+    // ---- segment swaps with every transition request the firmware accepts: a finite-loop pattern in the other
+    // segment takes SyncIdx / GPIO(pin) / SysTime(t), an infinite loop Immediate / Ext. An earlier write that
+    // carried a *different* transition value comes first, so a request that is not taken from the swap itself shows.
+    let t_future = T0 + 100_000_000;
+    for kind in 0..3u8 {
+        for (finite, trs) in [(true, vec![(0x00u8, 0u64), (0x02, 0), (0x02, 1), (0x02, 2), (0x02, 3), (0x01, t_future)]), (false, vec![(0xFF, 0), (0xF0, 0)])] {
+            for (k, tr) in trs.iter().enumerate() {
+                let rep: u16 = if finite { 3 } else { 0xFFFF };
+                let stale: Tr = if finite { Some((0x02, ((k + 2) % 4) as u64)) } else { Some((0xFF, 0)) };
+                let (first, target, probe) = match kind {
+                    0 => (
+                        Spec::Mod { seg: 1, tr: stale, rep, div: 10, n: 300, seed: 81 },
+                        Spec::Mod { seg: 1, tr: None, rep, div: 10, n: 8, seed: 82 },
+                        Spec::SwapMod(1, *tr),
+                    ),
+                    1 => (
+                        Spec::Foci { n: 2, seg: 1, tr: stale, rep, div: 100, ss: 21760, size: 90, seed: 83 },
+                        Spec::Foci { n: 1, seg: 1, tr: None, rep, div: 100, ss: 21760, size: 5, seed: 84 },
+                        Spec::SwapFoci(1, *tr),
+                    ),
+                    _ => (
+                        Spec::GainStm { mode: 0, seg: 1, tr: stale, rep, div: 100, size: 3, seed: 85 },
+                        Spec::GainStm { mode: 1, seg: 1, tr: None, rep, div: 100, size: 4, seed: 86 },
+                        Spec::SwapGainStm(1, *tr),
+                    ),
+                };
+                // back to segment 0 (Immediate on its infinite loop) so that the swap goes to the *other* segment
+                let back = match kind {
+                    0 => Spec::SwapMod(0, (0xFF, 0)),
+                    _ => Spec::SwapGain(0, (0xFF, 0)),
+                };
+                run_case(&mut out, &Case { ndev: 1, history: vec![first, back, target], probe }, "swap");
+            }
+        }
+    }
     out.sample("reset 1 1000000000000 / send clear / send mod 0 - 65535 10 40000 7 / send mod 0 - 65535 10 3 9".into());
     out.sample("reset 1 1000000000000 / send clear / send foci 1 0 - 65535 300 21760 9000 4 / send foci 3 0 255:0 65535 100 21760 1365 …".into());
     out.finish(
